@@ -6,6 +6,8 @@
 #include "../VectorTools.h"
 #include "AbstractDiscreteDistribution.h"
 
+#include <cmath>
+
 using namespace bpp;
 using namespace std;
 
@@ -307,7 +309,8 @@ void AbstractDiscreteDistribution::discretizeEqualProportions()
   size_t i;
   vector<double> values(numberOfCategories_);
 
-  if (maxX != minX)
+  bool equiprobable = (maxX != minX);
+  if (equiprobable)
   {
     // divide the domain into equiprobable intervals
     ec = (maxX - minX) / static_cast<double>(numberOfCategories_);
@@ -369,8 +372,17 @@ void AbstractDiscreteDistribution::discretizeEqualProportions()
         values[numberOfCategories_ - 1] = (firstBound + secondBound) / 2.;
       }
     }
+
+    // when the mass on the domain is at the resolution limit of pProb/qProb, the quantiles and class values are
+    // not computable (infinite or NaN): fall back to the uniform discretization, as if there were no mass
+    for (i = 0; i < numberOfCategories_; i++)
+    {
+      if (!std::isfinite(values[i]) || (i > 0 && !std::isfinite(bounds_[i - 1])))
+        equiprobable = false;
+    }
   }
-  else
+
+  if (!equiprobable)
   // if maxX==minX, uniform discretization of the range
   {
     ec = (intMinMax_->getUpperBound() - intMinMax_->getLowerBound()) / static_cast<double>(numberOfCategories_);
